@@ -4,17 +4,17 @@
 set -u
 ID="$1"; V="$2"; SRC="/tmp/seed_out/$ID/$V"; WT="/tmp/cs_${ID}_$V"; OUT="/verif/seeded/${ID}_$V"
 [ -f "$SRC/patch.diff" ] || { echo "no patch in $SRC"; exit 2; }
-git -C /repo worktree add -q --detach "$WT" HEAD || exit 2
+flock /tmp/.wt.lock git -C /repo worktree add -q --detach "$WT" HEAD || exit 2
 res="head=$(git -C /repo rev-parse --short HEAD)"
 ( cd "$WT" && PYTHONPATH="$WT" timeout 300 /venv/bin/python "$SRC/demo.py" >/dev/null 2>&1 ); res="$res demo_clean_rc=$?"
 if git -C "$WT" apply "$SRC/patch.diff" 2>/dev/null; then
   res="$res applies=yes"
   ( cd "$WT" && PYTHONPATH="$WT" timeout 300 /venv/bin/python "$SRC/demo.py" >/dev/null 2>&1 ); res="$res demo_patched_rc=$?"
-  t=$( cd "$WT" && PYTHONPATH="$WT" timeout 1200 /venv/bin/python -m pytest -q -p no:cacheprovider -n 6 2>&1 | tail -1 )
+  t=$( cd "$WT" && PYTHONPATH="$WT" timeout 1200 /venv/bin/python -m pytest -q -p no:cacheprovider -n ${CS_N:-6} 2>&1 | tail -1 )
   res="$res tests_patched=[$t]"
 else
   res="$res applies=NO"
 fi
-git -C /repo worktree remove --force "$WT"
+flock /tmp/.wt.lock git -C /repo worktree remove --force "$WT"
 mkdir -p "$OUT"; cp "$SRC/patch.diff" "$SRC/demo.py" "$OUT/"; [ -f "$SRC/notes.md" ] && cp "$SRC/notes.md" "$OUT/"
 echo "$res" | tee "$OUT/confirm.txt"
